@@ -52,6 +52,11 @@ def oracle_case(res, ast, d, env, rng):
             if len(vals) != 1 or bnd.as_tuple() != (list(vals)[0],) * 2:
                 bad = f"node {k}: reported {bnd.as_tuple()}, arithmetic truth function gives {sorted(vals)}"
                 break
+    if bad is None and rng.random() < 0.3:
+        # the documented `out` callback only post-processes every entry
+        viaout = build(ast).evaluate_propositions(forms(d, rng), out=lambda b: (int(b.lower), int(b.upper), "x"))
+        if {k: v[:2] for k, v in viaout.items()} != {k: b.as_tuple() for k, b in got.items()} or any(v[2:] != ("x",) for v in viaout.values()):
+            bad = f"evaluate_propositions(out=f) is not f applied to every entry of evaluate_propositions(): {viaout} vs {got}"
     if bad is None:
         ev = build(ast).evaluate(forms(d, rng)).as_tuple()
         if ev != (top, top) or ev != got[m.id].as_tuple():
